@@ -8,11 +8,11 @@ VOL_SHAPES = {"self.converters": "seq", "val": "rec:ValueOrList", "self": "rec:V
 SPEC("pane.types", "ValueOrListConverter.into_data",
      shapes=VOL_SHAPES,
      requires=[lambda self, val: isinstance(val, ValueOrList), lambda self, val: slen(self.converters) == 2],
-     ensures=[(lambda self, val, result: implies(truthy(val._is_val), result == ser(sat(self.converters, 0), val._inner)), ["C05", "C18"], "ser-value"),
+     ensures=[(lambda self, val, result: implies(truthy(val._is_val), result == ser(sat(self.converters, 0), val._inner)), ["C05", "C06", "C18"], "ser-value"),
               (lambda self, val, result: implies(not truthy(val._is_val),
                                                  isinstance(result, list) and slen(result) == slen(val._inner)
                                                  and forall(range(slen(val._inner)), lambda j: sat(result, j) == ser(sat(self.converters, 0), sat(val._inner, j)))),
-               ["C05", "C18"], "ser-list")])
+               ["C05", "C06", "C18"], "ser-list")])
 
 SPEC("pane.types", "ValueOrList.map",
      shapes=VOL_SHAPES,
